@@ -5,6 +5,7 @@ import (
 	"encoding/json"
 	"flag"
 	"fmt"
+	"go/constant"
 	"os"
 	"path/filepath"
 	"regexp"
@@ -247,6 +248,12 @@ func cmdRun(args []string) int {
 		if len(oe.Incon) > 0 && status == "discharged" {
 			status = "inconclusive:solver-unknown"
 		}
+		// vacuity guard: every cover point written in the harness must be reached by some path
+		for _, want := range expectedCovers(ob.Fn) {
+			if r.Covers[want] == 0 && status == "discharged" {
+				status = "inconclusive:vacuous(" + want + ")"
+			}
+		}
 		for _, v := range r.Violations {
 			caseN++
 			v.Case.Obligation = ob.Name
@@ -269,6 +276,9 @@ func cmdRun(args []string) int {
 			if status == "discharged" {
 				status = "violated"
 			}
+		}
+		for _, sp := range r.Spurious {
+			oe.Incon = append(oe.Incon, "spurious-under-abstraction: "+sp)
 		}
 		oe.Status = status
 		res.Obligations = append(res.Obligations, oe)
@@ -302,4 +312,25 @@ func obHasProp(tag, prop string) bool {
 		}
 	}
 	return false
+}
+
+// expectedCovers lists the constant labels of sym.Cover calls in a harness function.
+func expectedCovers(fn *ssa.Function) []string {
+	var out []string
+	for _, b := range fn.Blocks {
+		for _, ins := range b.Instrs {
+			c, ok := ins.(*ssa.Call)
+			if !ok {
+				continue
+			}
+			callee := c.Call.StaticCallee()
+			if callee == nil || callee.String() != symPkg+"Cover" || len(c.Call.Args) != 1 {
+				continue
+			}
+			if k, ok := c.Call.Args[0].(*ssa.Const); ok && k.Value != nil {
+				out = append(out, constant.StringVal(k.Value))
+			}
+		}
+	}
+	return out
 }
